@@ -194,5 +194,49 @@ pub fn run(tier: Tier) -> i32 {
         ctx.traces.fetch_add(1, Ordering::Relaxed);
     });
     ctx.scope_done("grid", (cells.len() * settings.len()) as u64, t0, &format!("{} cells x {} lc/lp/pb", cells.len(), settings.len()));
+    // the end marker is only an end of stream if the range coder is finished there (code == 0, what every conforming
+    // encoder's flush guarantees and liblzma requires): the same streams with the last payload byte altered
+    {
+        let t1 = Instant::now();
+        let mut n = 0u64;
+        for (pi, p) in progs.iter().enumerate() {
+            for (lc, lp, pb) in settings.iter().copied() {
+                let mut q = p.clone();
+                q.push(Sym::E);
+                let e = enc::encode(lc, lp, pb, u64::MAX, &q);
+                for x in [0x01u8, 0x10, 0x80] {
+                    let mut pay = e.payload.clone();
+                    let l = pay.len();
+                    pay[l - 1] ^= x;
+                    // only submit if the reference decoder still reaches the marker with all input consumed and code != 0
+                    let mut st = dec::LzState::new(lc, lp, pb);
+                    let mut win = Vec::new();
+                    let d = dec::decode_segment(&mut st, &mut win, u64::MAX, &pay, None, true, None);
+                    if !(d.stop == dec::Stop::Marker && d.consumed == pay.len() && !d.code_zero) {
+                        continue;
+                    }
+                    for (sopt, hl) in [(SizeOpt::Header, 13usize), (SizeOpt::HeaderProvided(None), 13), (SizeOpt::Provided(None), 5)] {
+                        let mut bytes = enc::lzma_header(lc, lp, pb, 1 << 16, None);
+                        bytes.truncate(hl);
+                        bytes.extend_from_slice(&pay);
+                        let opts = Opts { size: sopt, memlimit: None, allow_incomplete: false };
+                        for case in [
+                            Case::Dec { fmt: Fmt::Lzma, opts, input: Hex(bytes.clone()), rd: Rd::default(), sk: Sk::default() },
+                            Case::Stream { opts, sk: Sk::default(), ops: vec![SOp::WriteAll(Hex(bytes.clone())), SOp::Finish] },
+                        ] {
+                            let o = run_case(&case);
+                            n += 1;
+                            ctx.eval(1);
+                            ctx.nontriv(1);
+                            if !o.v.is_err() {
+                                ctx.violation(&case, &format!("program #{} [{}] + marker with the last payload byte ^= {:#04x} (marker reached with code != 0), option {:?}: not a clean end of stream => Err", pi, prog_str(p), x, sopt), &o, None);
+                            }
+                        }
+                    }
+                }
+            }
+        }
+        ctx.scope_done("marker-with-unfinished-coder", n, t1, "");
+    }
     ctx.finish()
 }
